@@ -76,7 +76,11 @@ fn forms(tier: Tier) -> Vec<Form> {
 /// devspec: the flag (if any) that removes this form, per the flag documentation in the device
 /// table (DisabledOptions). Fixed order so that a key names one flag deterministically.
 fn removed_by(form: &Form, flags: &BTreeSet<String>) -> Option<&'static str> {
-    let c = &form.variants[0];
+    removed_by_case(&form.variants[0], flags)
+}
+
+/// The same for one instruction case (C01 uses it to run its enumeration per device class).
+pub fn removed_by_case(c: &ICase, flags: &BTreeSet<String>) -> Option<&'static str> {
     let m = c.mnem;
     let ptr_base = |c: &ICase| -> Option<char> {
         for o in &c.ops {
